@@ -202,6 +202,11 @@ class Program:
             except Exception as e:
                 self.expansion_errors.append(f"<aliases>: {type(e).__name__}: {e}")
             # (2) per module: constants, tables, helper calls
+            try:
+                inline.set_core_defs(self.modules["pyrtma.core_defs"].tree if "pyrtma.core_defs" in self.modules else None)
+                inline.set_program_index({n: m.tree for n, m in self.modules.items()})
+            except Exception as e:
+                self.expansion_errors.append(f"<index>: {type(e).__name__}: {e}")
             for name, m in self.modules.items():
                 try:
                     n_inl, sites = inline.expand_module(m.tree, name)
